@@ -147,6 +147,8 @@ def main(c):
     c.add_mc("NbWriteImpl (coalescing buffer 4, writes 0..6, total <= %d, every accept fragmentation, failure at every point)" % (11 if c.quick else 16),
              vlib.tlc(SD, "NbWriteImpl", "NbWriteMC.cfg" if c.quick else "NbWriteMC_t.cfg", workers=12, timeout=1200, coverage=True))
     c.cov["exhaustive"] = True
+    vlib.apalache_inductive(c, SD, "NbReadGeom", (["--init=Init", "--inv=IndInv", "--length=0"], ["--init=IndInit", "--inv=IndInv", "--length=1"]),
+                            "reader window arithmetic (Geometry, ReadFits, Accounting, Progress) inductive for every buffer size, wait length, segment and consume length")
     progs = []
     n = c.pick(500, 8000)
     r, cases = vlib.tlc_emit(SD, "NbReadImpl", "NbReadGen.cfg", args=["-simulate", "num=%d" % n, "-depth", "20", "-seed", str(c.seed)], timeout=600)
